@@ -21,6 +21,7 @@ type c20 struct {
 	derive    []int   // derive[i] = core index the i-th derived core is taken from (before the threads start)
 	writers   [][]int // per thread: the core index of each write
 	reader    bool
+	readers   int // further readers (GetLogs twice each): every result on its own must hold each pre-written entry exactly once
 }
 
 func (c c20) scenario() sched.Scenario {
@@ -92,9 +93,48 @@ func (c c20) scenario() sched.Scenario {
 				}
 			})
 		}
+		var readerFails []string
+		for r := 0; r < c.readers; r++ {
+			r := r
+			bodies = append(bodies, func() {
+				defer func() {
+					if p := recover(); p != nil {
+						hmu.Lock()
+						readerFails = append(readerFails, fmt.Sprintf("reader %d: GetLogs panicked: %v", r, p))
+						hmu.Unlock()
+					}
+				}()
+				for i := 0; i < 2; i++ {
+					logs := lg.Logs(w.ML)
+					cnt := map[string]int{}
+					for _, m := range logs {
+						cnt[m]++
+					}
+					bad := ""
+					for m, n := range cnt {
+						if n > 1 {
+							bad = fmt.Sprintf("entry %s %d times", m, n)
+						}
+					}
+					if bad == "" && len(logs) < c.pre {
+						bad = fmt.Sprintf("%d entries, %d had been written before any thread started", len(logs), c.pre)
+					}
+					if bad != "" {
+						hmu.Lock()
+						readerFails = append(readerFails, fmt.Sprintf("reader %d, GetLogs #%d: %s: %v", r, i, bad, lgHead(logs)))
+						hmu.Unlock()
+					}
+					schedPoint()
+				}
+			})
+		}
 		judge := func() (string, string) {
 			final := lg.Logs(w.ML)
 			fail := ""
+			if len(readerFails) > 0 {
+				sort.Strings(readerFails)
+				fail = "concurrent readers: " + readerFails[0]
+			}
 			// final buffer: every entry exactly once, newest first = some merge of the threads' program orders
 			seen := map[string]int{}
 			for _, m := range final {
@@ -171,6 +211,7 @@ func C20Scenarios() []sched.Scenario {
 		{name: "root||derived", doc: "one thread writes through the root core, one through a core derived from it", pre: 1, derive: []int{0}, writers: [][]int{{0, 0}, {1, 1}}},
 		{name: "derived||derived||reader", doc: "two derived cores (one derived from the other) and a reader calling GetLogs twice", pre: 2, derive: []int{0, 1}, writers: [][]int{{1, 1}, {2}}, reader: true},
 		{name: "root||derived||derived", doc: "three writers, root and two sibling derived cores", pre: 0, derive: []int{0, 0}, writers: [][]int{{0}, {1, 1}, {2}}},
+		{name: "reader||reader||root", doc: "two readers (two log-page requests at once) and a writer through the root core", pre: 3, writers: [][]int{{0}}, readers: 2},
 		{name: "root||reader", doc: "writer through the root core, reader calling GetLogs twice", pre: 2, writers: [][]int{{0, 0}}, reader: true},
 	}
 	var out []sched.Scenario
